@@ -250,9 +250,7 @@ def at_end_cases():
 
 def extra_cases(tier):
     rng = random.Random(C.seed() * 15485863 + 5)
-    known = any(k.get("property") == PID and k.get("signature") == "pause-at-replication-end-cannot-be-resumed"
-                for k in C.load_known().get("findings", []))
-    return (at_end_cases() if known else []) + tree_cases(rng, 10 if tier == "quick" else 250, ["float", "int", "dur", "durmin"])
+    return at_end_cases() + tree_cases(rng, 10 if tier == "quick" else 250, ["float", "int", "dur", "durmin"])
 
 
 def main(tier: str) -> int:
